@@ -290,6 +290,25 @@ def sstr(o):
             return "<unprintable>"
 
 
+def fresh_twin(q):
+    """A TimePoint built through the constructor from q's (whole-second) fields, or None if q has fractional fields.
+    Differential oracle for derived values: the twin and q must answer every observer alike."""
+    h, m, s = q._hour_of_day, q._minute_of_hour, q._second_of_minute
+    for x in (h, m, s):
+        if x is None or (isinstance(x, float) and not x.is_integer()):
+            return None
+    kw = {"num_expanded_year_digits": q._num_expanded_year_digits, "year": q._year, "hour_of_day": int(h),
+          "minute_of_hour": int(m), "second_of_minute": int(s), "time_zone_hour": q._time_zone._hours,
+          "time_zone_minute": q._time_zone._minutes}
+    if q._month_of_year is not None:
+        kw.update(month_of_year=q._month_of_year, day_of_month=q._day_of_month)
+    elif q._day_of_year is not None:
+        kw.update(day_of_year=q._day_of_year)
+    else:
+        kw.update(week_of_year=q._week_of_year, day_of_week=q._day_of_week)
+    return TimePoint(**kw)
+
+
 def canon_point(p):
     """Exact key of a TimePoint: every slot, the zone by its slots; floats keep their type."""
     tz = p._time_zone
